@@ -175,6 +175,9 @@ ELEMS = {
     "allof_union": ("m: int", "AllOf(Element(minimum=m), AnyOf(Integer(), String()))", SV, SVPRE, "quick"),
     "allof_arrays": ("m: int", "AllOf(Element(maxItems=2), Array(Number(minimum=m)))", SV, SVPRE, "thorough"),
     "not": ("m: int", "Not(Integer(minimum=m))", SV, SVPRE, "thorough"),
+    "allof_list_any_first": ("m: int", "AllOf(Array(Element(), uniqueItems=True), Array(_inner(m)))", "Union[int, List[Dict[str, int]]]", ["not isinstance(v, list) or (len(v) <= 2 and all(len(d) <= 1 and all(k in ('x', 'y') for k in d) for d in v))"], "quick"),
+    "allof_nested_list_any_first": ("m: int", "AllOf(Array(Array(Element())), Array(Array(_inner(m)), maxItems=1))", "Union[int, List[List[Dict[str, int]]]]", ["not isinstance(v, list) or (len(v) <= 1 and all(len(x) <= 1 and all(len(d) <= 1 and all(k in ('x', 'y') for k in d) for d in x) for x in v))"], "quick"),
+    "parsed_array_allof": ("m: int", 'parse_s({"type": "array", "uniqueItems": True, "allOf": [{"type": "array", "items": {"type": "object", "title": "Inner", "properties": {"x": {"type": "number", "minimum": m}}}}]})', "Union[int, List[Dict[str, int]]]", ["not isinstance(v, list) or (len(v) <= 2 and all(len(d) <= 1 and all(k in ('x', 'y') for k in d) for d in v))"], "quick"),
     "class": ("m: int", "_inner(m)", OV, OVPRE, "quick"),
     "array_of_class": ("m: int", "Array(_inner(m))", "Union[int, List[Dict[str, int]]]", ["not isinstance(v, list) or (len(v) <= 2 and all(len(d) <= 1 and all(k in ('x', 'y') for k in d) for d in v))"], "quick"),
     "anyof_class": ("m: int", "AnyOf(_inner(m), Integer())", OV, OVPRE, "quick"),
